@@ -386,6 +386,28 @@ impl<V: VringT<GM> + Clone + Send + Sync + 'static> Run<V> {
             }
             "read_mem" => self.worker_cmd(0, Cmd::ReadMem(g(0), g(1) as usize)),
             "regions" => self.worker_cmd(0, Cmd::Regions),
+            "par_write" => {
+                // one thread per address, all released together, each writing `data` through the guest memory
+                let mem = self.sh.lock().unwrap().mem.clone();
+                match mem {
+                    None => Val::s("no-memory"),
+                    Some(m) => {
+                        let barrier = Arc::new(std::sync::Barrier::new(a.len()));
+                        let hs: Vec<_> = a
+                            .iter()
+                            .map(|gpa| {
+                                let (m, b, d, gpa) = (m.clone(), barrier.clone(), data.to_vec(), *gpa);
+                                std::thread::spawn(move || {
+                                    b.wait();
+                                    m.memory().write_slice(&d, GuestAddress(gpa)).is_ok()
+                                })
+                            })
+                            .collect();
+                        let ok = hs.into_iter().map(|h| h.join().unwrap_or(false)).fold(true, |x, y| x && y);
+                        Val::s(if ok { "ok" } else { "error" })
+                    }
+                }
+            }
             "add_listener" => {
                 // a = [thread; id]: register a fresh eventfd as a custom listener with that id
                 let t = g(0) as usize;
@@ -515,7 +537,7 @@ fn run_with<V: VringT<GM> + Clone + Send + Sync + 'static>(cfg: &[Val], steps: &
         // control messages without an acknowledgement: a GET_FEATURES round trip orders them
         let control = !matches!(
             kind.as_str(),
-            "kick" | "close_evfd" | "read_call" | "add_listener" | "fire_listener" | "queue_state" | "add_used" | "signal" | "write_mem" | "read_mem" | "regions"
+            "kick" | "close_evfd" | "read_call" | "add_listener" | "fire_listener" | "queue_state" | "add_used" | "signal" | "write_mem" | "read_mem" | "regions" | "par_write"
                 | "backend_log" | "guest_write" | "guest_read" | "file_size"
         );
         if control {
